@@ -47,7 +47,9 @@ func runC03(r *R) {
 	r.Rule("C03-R2", "getOrHead: success only if NOT(Content-Length≥0 ∧ hint≠Content-Length) and NOT(no hint ∧ no Content-Length)", 1)
 	if fn := r.NeedFn("C03-R1", "(*"+kcl+".KeepClient).getOrHead"); fn != nil {
 		loc := paramOf(fn, "locator")
-		dos := CallsMatching(fn, func(n string, c *ssa.CallCommon) bool { return n == "(*net/http.Client).Do" || n == "("+kcl+".HTTPClient).Do" })
+		dos := CallsMatching(fn, func(n string, c *ssa.CallCommon) bool {
+			return n == "(*net/http.Client).Do" || n == "("+kcl+".HTTPClient).Do"
+		})
 		for _, ret := range Returns(fn) {
 			ops := ReturnOperands(ret)
 			for _, rd := range ops[0] {
